@@ -1677,8 +1677,7 @@ package connect
 //@ constfield grpcClientConn.duplexCall, grpcClientConn.responseHeader, grpcClientConn.responseTrailer, grpcClientConn.bufferPool, grpcClientConn.protobuf, grpcClientConn.readTrailers, grpcClientConn.compressionPools
 //@ trusted func field:grpcClientConn.readTrailers(u, call) (res, err)
 //@   assigns everything
-//@   ensures res != nil
-//@   doc: "the two closures installed by grpcClient.NewConn (HTTP trailers after draining the body / the gRPC-Web trailer frame), both under contract (NewConn$2, NewConn$3)"
+//@   doc: "the two closures installed by grpcClient.NewConn (HTTP trailers after draining the body / the gRPC-Web trailer frame), both under contract (NewConn$2, NewConn$3); nothing is assumed of their result (the gRPC-Web one returns a nil map when no trailers frame was read)"
 
 //@ func (*grpcClientConn).Receive(cc, msg) err
 //@   tags C04, C06, C03, C11, C15, C05
@@ -1740,6 +1739,18 @@ package connect
 //@   assert@call(NewServerStreamHandler$1.implementation#1): arg1 != nil && arg1.spec.Procedure == callres("StreamingHandlerConn.Spec", 1).Procedure && arg1.spec.StreamType == callres("StreamingHandlerConn.Spec", 1).StreamType && arg1.spec.IsClient == callres("StreamingHandlerConn.Spec", 1).IsClient   // label: user-code-sees-the-spec-of-the-connection
 //@   assert@call(NewServerStreamHandler$1.implementation#1): arg1.header == callres("StreamingHandlerConn.RequestHeader", 1) && arg2 != nil && arg2.conn == conn   // label: user-code-sees-the-request-headers-and-the-connection
 
+//@ trusted func NewUnaryHandler$1.unary(ctx, request) (res, err)
+//@   assigns everything
+//@   doc: "the user's unary function"
+//@ func NewUnaryHandler$1(ctx, request) (res, err)
+//@   anchor "untyped := UnaryFunc(func("
+//@   tags C12, C15, C10
+//@   requires ctx != nil && deref(unary) != nil
+//@   assigns everything
+//@   ensures callres("context.Context.Err", 1) != nil ==> !called("NewUnaryHandler$1.unary", 1) && err == callres("context.Context.Err", 1)   // label: user-code-does-not-run-once-the-context-is-done-and-the-context's-error-is-the-outcome   // tags: C15, C10
+//@   ensures !called("NewUnaryHandler$1.unary", 2)   // label: user-code-runs-at-most-once
+//@   ensures called("NewUnaryHandler$1.unary", 1) ==> res == callres("NewUnaryHandler$1.unary", 1, 0) && err == callres("NewUnaryHandler$1.unary", 1, 1)   // label: the-user's-verdict-is-returned-unchanged
+//@   assert@call(NewUnaryHandler$1.unary#1): arg0 == ctx && arg1 != nil   // label: user-code-gets-the-handler's-context-and-a-request
 //@ trusted func NewUnaryHandler$2.untyped(ctx, request) (res, err)
 //@   assigns everything
 //@   ensures err == nil ==> res != nil
@@ -1808,6 +1819,12 @@ package connect
 //@   ensures |old(rest(reader))| <= 4194304 && termerr(reader) == io.EOF ==> res && err == nil             // label: reports-the-end-when-it-reached-it
 //@   ensures |old(rest(reader))| > 4194304 ==> !res                                                        // label: more-than-the-limit-left-is-never-reported-as-drained-however-the-reader-reports-its-end
 //@   ensures res ==> err == nil   // label: drained-means-no-error
+//@ func (*grpcClient).NewConn$2(u, call) (res, err)
+//@   anchor "func(unmarshaler *grpcUnmarshaler, _ *duplexHTTPCall)"
+//@   tags C04, C06, C11
+//@   requires u != nil
+//@   assigns nothing
+//@   ensures res == u.webTrailer && err == nil   // label: grpc-web-trailers-are-the-ones-the-unmarshaler-read-from-the-0x80-frame-nothing-else
 //@ func (*grpcClient).NewConn$3(u, call) (res, err)
 //@   anchor "func(_ *grpcUnmarshaler, call *duplexHTTPCall)"
 //@   tags C03, C04, C06, C15
@@ -2033,6 +2050,7 @@ package connect
 //@ func NewUnaryHandler(procedure, unary, options) res
 //@   tags C12, C16
 //@   use wrapAll_nonnil
+//@   requires unary != nil
 //@   assigns everything
 //@   ensures res != nil && fresh(res) && res.spec.StreamType == 0 && res.spec.Procedure == callres("(*handlerConfig).newSpec", 1).Procedure && !res.spec.IsClient   // label: handler-labelled-with-procedure-and-unary-stream-type
 //@   ensures res.implementation == implementation   // label: the-unary-adapter-is-not-wrapped-by-streaming-interceptors   // tags: C16
@@ -2163,6 +2181,12 @@ package connect
 //@   ensures old(c.err) != nil ==> !res && c.err == old(c.err) && !called("StreamingHandlerConn.Receive", 1)   // label: after-the-first-error-nothing-more-is-read
 //@   ensures old(c.err) == nil ==> called("StreamingHandlerConn.Receive", 1) && res == (callres("StreamingHandlerConn.Receive", 1) == nil)   // label: one-receive-per-call
 //@   assert@call(StreamingHandlerConn.Receive#1): arg0 == c.conn   // label: the-view-delegates-to-its-own-connection
+//@   assert@call(StreamingHandlerConn.Receive#1): fresh(arg1)   // label: every-message-is-decoded-into-a-new-value-so-nothing-of-an-earlier-message-survives-in-it-whatever-the-codec-does   // tags: C01
+//@ func (*ClientStream).Msg(c) res
+//@   tags C01
+//@   requires c != nil
+//@   assigns c.msg
+//@   ensures res != nil && res == c.msg && (old(c.msg) != nil ==> res == old(c.msg))   // label: the-message-the-last-receive-decoded-into
 //@ func (*ClientStream).Err(c) res
 //@   tags C04, C07
 //@   requires c != nil
@@ -2177,6 +2201,12 @@ package connect
 //@   ensures old(s.constructErr) != nil || old(s.receiveErr) != nil ==> !res && !called("StreamingClientConn.Receive", 1)   // label: after-the-first-error-nothing-more-is-read
 //@   ensures old(s.constructErr) == nil && old(s.receiveErr) == nil ==> called("StreamingClientConn.Receive", 1) && res == (callres("StreamingClientConn.Receive", 1) == nil)   // label: one-receive-per-call
 //@   assert@call(StreamingClientConn.Receive#1): arg0 == s.conn   // label: the-view-delegates-to-its-own-connection
+//@   assert@call(StreamingClientConn.Receive#1): fresh(arg1)   // label: every-message-is-decoded-into-a-new-value-so-nothing-of-an-earlier-message-survives-in-it-whatever-the-codec-does   // tags: C01
+//@ func (*ServerStreamForClient).Msg(s) res
+//@   tags C01
+//@   requires s != nil
+//@   assigns s.msg
+//@   ensures res != nil && res == s.msg && (old(s.msg) != nil ==> res == old(s.msg))   // label: the-message-the-last-receive-decoded-into
 //@ func (*ServerStreamForClient).Err(s) res
 //@   tags C04, C06
 //@   requires s != nil
